@@ -5,6 +5,7 @@ import (
 	"fmt"
 	"os"
 	"runtime"
+	"strings"
 	"sync"
 
 	"github.com/BlackVectorOps/semantic_firewall/v3/internal/cli"
@@ -22,7 +23,12 @@ type diffPair struct {
 	Old  string      `json:"old"`
 	New  string      `json:"new"`
 	Sims [][2]string `json:"sims"` // [old short name, new short name]
+	// AllSims: measure every old x new pair (pool search for pairs near the rename threshold)
+	AllSims bool `json:"allsims,omitempty"`
 }
+
+// renameThreshold is the documented similarity a rename pairing needs (the CLI's constant).
+const renameThreshold = 0.6
 
 func topoByShortName(path string) (map[string]*topology.FunctionTopology, error) {
 	src, err := os.ReadFile(path)
@@ -76,15 +82,31 @@ func diffRun(args []string) error {
 				return
 			}
 			ev["report"] = rep
-			if len(p.Sims) > 0 {
+			// the pairs the report calls renamed are always measured independently of the report
+			want := append([][2]string{}, p.Sims...)
+			for _, f := range rep.Functions {
+				if f.Status == "renamed" {
+					if parts := strings.SplitN(f.Function, " \u2192 ", 2); len(parts) == 2 {
+						want = append(want, [2]string{parts[0], parts[1]})
+					}
+				}
+			}
+			if len(want) > 0 || p.AllSims {
 				ot, err1 := topoByShortName(p.Old)
 				nt, err2 := topoByShortName(p.New)
 				if err1 != nil || err2 != nil {
 					ev["error"] = fmt.Sprint(err1, err2)
 					return
 				}
+				if p.AllSims {
+					for a := range ot {
+						for b := range nt {
+							want = append(want, [2]string{a, b})
+						}
+					}
+				}
 				var sims []map[string]any
-				for _, s := range p.Sims {
+				for _, s := range want {
 					a, b := ot[s[0]], nt[s[1]]
 					if a == nil || b == nil {
 						sims = append(sims, map[string]any{"a": s[0], "b": s[1], "missing": true})
@@ -92,7 +114,8 @@ func diffRun(args []string) error {
 					}
 					ab, ba := topology.TopologySimilarity(a, b), topology.TopologySimilarity(b, a)
 					sims = append(sims, map[string]any{"a": s[0], "b": s[1], "ab": fmt.Sprintf("%.17g", ab),
-						"ba": fmt.Sprintf("%.17g", ba), "one": ab == 1.0, "eq": ab == ba})
+						"ba": fmt.Sprintf("%.17g", ba), "one": ab == 1.0, "eq": ab == ba,
+						"ge": ab >= renameThreshold && ba >= renameThreshold, "fa": a.FuzzyHash, "fb": b.FuzzyHash})
 				}
 				ev["sims"] = sims
 			}
